@@ -223,13 +223,14 @@ def _hook_factory(ph, spec):
     return f
 
 
-def make_mw_type(key, unique, reorderable, funcs, wsgi=False, base=None, hooks='method'):
+def make_mw_type(key, unique, reorderable, funcs, wsgi=False, base=None, hooks='method', static_name=None):
     """One class object per type key: Middleware equality is type equality.
 
     funcs: {'request'|'endpoint'|'render': {'req':[], 'opt':[], 'kwreq':[], 'kwopt':[], 'provides':[]}}
     base:  another class made here (the new type is a SUBCLASS of it -- still a different type)
-    hooks: 'method' (functions on the class) | 'closure' (plain functions set on the instance in __init__)"""
-    ck = (key, unique, reorderable, repr(sorted((k, sorted(v.items())) for k, v in funcs.items())), id(base), hooks)
+    hooks: 'method' (functions on the class) | 'closure' (plain functions set on the instance in __init__)
+           | 'static' (staticmethods: every instance hands out the SAME function object; layer name = static_name)"""
+    ck = (key, unique, reorderable, repr(sorted((k, sorted(v.items())) for k, v in funcs.items())), id(base), hooks, static_name)
     if ck in _TYPE_CACHE:
         return _TYPE_CACHE[ck]
     attrs = {'unique': unique, 'reorderable': reorderable}
@@ -238,6 +239,8 @@ def make_mw_type(key, unique, reorderable, funcs, wsgi=False, base=None, hooks='
         if hooks == 'closure':
             closures[ph] = spec
             attrs[ph] = None
+        elif hooks == 'static':
+            attrs[ph] = staticmethod(_bind_name(None, static_name + '.' + ph, spec))
         else:
             attrs[ph] = make_function(ph, True, spec.get('req', ()), spec.get('opt', ()), spec.get('kwreq', ()),
                                       spec.get('kwopt', ()), spec.get('provides', ()))
